@@ -216,6 +216,74 @@ def execute(ex: Execution, pname: str, backend: str, max_faults: int, fault_even
         return obs, v
 
 
+def execute_cancel_released(ex: Execution, backend: str, stack_kind: str = "in_process") -> tuple[Any, list[Any]]:
+    """A run that waits for an event goes idle and (at the explorer's choice) is released from memory; the client cancels the
+    handler before or after that.  If cancel_handler reports 'cancelled' the stored handler must say so."""
+    from vmc import idle_harness as ih
+
+    sh.clear_graveyard()
+    sh.reset_ids()
+    ih.reset()
+    store = sh.make_store(backend)
+    v: list[Any] = []
+    cfg = RunConfig(max_actions=40, allow_time=True)
+    lifecycle_db = None
+    if stack_kind == "dbos":
+        import sqlite3
+
+        import dbos as dbos_standin
+
+        lifecycle_db = sh.fresh_sqlite_path()
+        c = sqlite3.connect(lifecycle_db)
+        c.executescript(ih.lifecycle_ddl())
+        c.commit()
+        c.close()
+        dbos_standin.DBOS._reset()
+    with EngineExec(ex, cfg) as e:
+        if stack_kind == "dbos":
+            stack: Any = ih.DbosStack(store, lifecycle_db, 5.0)
+            dbos_standin.DBOS.delete_workflow_async = classmethod(stack._delete)  # type: ignore[method-assign,assignment]
+        else:
+            stack = sh.Stack(store, idle_timeout=5.0, wrap_basic=MonRuntime)
+        wf = ih.wf_wait(1)(timeout=None)
+        stack.add_workflow("wf", wf)
+
+        async def boot() -> None:
+            await stack.service.start()
+            await stack.service.start_workflow(wf, "h1", StartEvent())
+            if stack_kind == "dbos":
+                await stack.lock.create("run1")  # (never done by the repository: C36's recorded finding)
+
+        e.loop.create_task(boot())
+        cancels: list[Any] = []
+        e.add_script([Action("cancel_handler", lambda: cancels.append(e.loop.create_task(stack.service.cancel_handler("h1"))))])
+        cfg.time_filter = lambda h: bool(e.loop.timer_deadlines()) and e.loop.timer_deadlines()[0] - e.loop.vt < 1000
+        e.drive()
+
+        async def q() -> Any:
+            hs = await store.query(HandlerQuery(handler_id_in=["h1"]))
+            return hs[0] if hs else None
+        t = e.loop.create_task(q())
+        e.loop.drain()
+        h = t.result()
+        released = bool(ih.RELEASES) if stack_kind != "dbos" else ih.lifecycle_state(lifecycle_db) in ("released", "releasing") or any(
+            td.get("type") == "idle_release" for td in ih.tick_types(e.loop, store))
+        w = {"program": "cancel_waiting_run", "released_before_cancel": released, "stack": stack_kind}
+        desc = f"[{backend}] waiting run, idle_timeout=5, schedule {ex.labels}: released={released}"
+        if cancels:
+            out = task_outcome(cancels[0])
+            if out[0] == "pending":
+                v.append(("cancel_handler_never_returns", w, f"{desc}: cancel_handler still pending"))
+            elif out[0] == "exception":
+                v.append(("cancel_handler_raises", {**w, "exc": type(out[1]).__name__}, f"{desc}: cancel_handler raised {out[1]!r}"))
+            elif out[1] == "cancelled" and getattr(h, "status", None) != "cancelled":
+                v.append(("handler_status_does_not_match_outcome" if getattr(h, "status", None) != "running" else "handler_stays_running_after_run_ended",
+                          {**w, "run_ended": "cancelled"},
+                          f"{desc}: cancel_handler returned 'cancelled' but the stored handler has status={getattr(h, 'status', None)!r}"))
+        obs = {"status": getattr(h, "status", None), "released": released, "cancelled": bool(cancels), "_metrics": {"max_concurrency": 1}}
+        return obs, v
+
+
 def programs(tier: str) -> list[Program]:
     ps: list[Program] = []
     q = tier == "quick"
@@ -236,6 +304,11 @@ def programs(tier: str) -> list[Program]:
         for mf in (1, 2):
             ps.append(Program(f"{pname}/memory/event_write_faults<={mf}", {"program": pname, "backend": "memory", "max_faults": mf, "events": True},
                               (lambda ex, pname=pname, mf=mf: execute(ex, pname, "memory", mf, True)), max_dev=(2 if q else 3) + mf))
+    for backend in ("memory", "sqlite"):
+        ps.append(Program(f"cancel_waiting_run/{backend}", {"program": "cancel_waiting_run", "backend": backend},
+                          (lambda ex, backend=backend: execute_cancel_released(ex, backend))))
+    ps.append(Program("cancel_waiting_run/dbos", {"program": "cancel_waiting_run", "stack": "dbos"},
+                      (lambda ex: execute_cancel_released(ex, "memory", "dbos"))))
     return ps
 
 
